@@ -187,7 +187,9 @@ def run(ctx):
         "any_assignment_gives_reference_results, assignments_agree, "
         "concurrent_equals_single_stream under the isolation contract EvSem.Isolated (event "
         "boundary overwrites everything transport reads; result ignores the stream id), "
-        "leaky_depends_on_assignment (the contract is necessary) — i.e. the DESIGN "
+        "leaky_depends_on_assignment (the contract is necessary), rngEv_isolated / "
+        "reseeded_events_independent_of_assignment (contract discharged for the RNG with the "
+        "C13 model of reseed_rng as the event boundary) — i.e. the DESIGN "
         "(immutable shared params, per-stream state, lazily created per-stream stores) is "
         "interference-free.  TESTED ONLY: that the C++ implements this design — per-event step "
         "streams, StepperResult sequences, diagnostics and calorimeter totals of 2-16 concurrent "
